@@ -143,4 +143,11 @@ namespace awkward {
     content_.get()->end_list(builder);
   }
 
+  bool
+  RegularArrayBuilder::active() {
+    // a list that the content has begun and not yet ended is this node's business too:
+    // the list above must hand the matching 'end_list' down instead of closing itself
+    return content_.get()->active();
+  }
+
 }
